@@ -179,25 +179,85 @@ func TestC12List(t *testing.T) {
 				}
 				t.Fatalf("%s", evid.Sig(sig, "listing reports %+v, blocks in range sum to %+v\n  %s", got, want, ctx))
 			}
-			// the command itself: `goQuery list <iface>` (cmd/goQuery/cmd/list.go) with JSON output, for every fourth range (thorough: every eighth)
+			// the command itself: `goQuery list [ifaces]` (cmd/goQuery/cmd/list.go) with JSON output, for every fourth range
+			// (thorough: every eighth); the arguments name the interface alone, twice, together with another existing
+			// interface or with a name the database does not have, or no interface at all
 			if rapid.IntRange(0, evid.Pick(3, 7)).Draw(t, fmt.Sprintf("r%d.cli", r)) == 0 {
-				cmd := exec.Command(execpool.Bin("goquery"), "-d", dir, "-e", "json", "-f", fmt.Sprint(first), "-l", fmt.Sprint(last), "list", ifc)
+				sumOf := func(name string) summary {
+					var w summary
+					for _, b := range db.Ifaces[name] {
+						if b.Ts < first || b.Ts > last {
+							continue
+						}
+						w.Drops += b.Drops
+						for _, f := range b.Flows {
+							if f.IsV4() {
+								w.V4++
+							} else {
+								w.V6++
+							}
+							w.C.Add(f)
+						}
+					}
+					return w
+				}
+				names := db.IfaceNames()
+				other := names[rapid.IntRange(0, len(names)-1).Draw(t, fmt.Sprintf("r%d.cli.other", r))]
+				var ifArgs []string
+				argKind := rapid.SampledFrom([]string{"one", "one", "twice", "with-other", "other-first-and-twice", "with-unknown", "none"}).Draw(t, fmt.Sprintf("r%d.cli.args", r))
+				switch argKind {
+				case "one":
+					ifArgs = []string{ifc}
+				case "twice":
+					ifArgs = []string{ifc, ifc}
+				case "with-other":
+					ifArgs = []string{ifc, other}
+				case "other-first-and-twice":
+					ifArgs = []string{other, ifc, other}
+				case "with-unknown":
+					ifArgs = []string{"nosuch0", ifc}
+				}
+				expect := map[string]bool{}
+				for _, a := range ifArgs {
+					if _, ok := db.Ifaces[a]; ok {
+						expect[a] = true
+					}
+				}
+				if argKind == "none" {
+					for _, n := range names {
+						expect[n] = true
+					}
+				}
+				cmd := exec.Command(execpool.Bin("goquery"), append([]string{"-d", dir, "-e", "json", "-f", fmt.Sprint(first), "-l", fmt.Sprint(last), "list"}, ifArgs...)...)
 				cmd.Env = append(os.Environ(), "TZ="+tz)
 				var stdout, stderr bytes.Buffer
 				cmd.Stdout, cmd.Stderr = &stdout, &stderr
 				cerr := cmd.Run()
 				evid.Class("route:goquery-list-command")
+				evid.Class("route:goquery-list-command:args-" + argKind)
+				cctx := fmt.Sprintf("goQuery list %s\n  %s", strings.Join(ifArgs, " "), ctx)
 				if cerr != nil {
-					t.Fatalf("%s", evid.Sig("C12:cli-list-error", "goQuery list failed although the same listing through the library succeeded: %v %s\n  %s", cerr, firstLine(stderr.String()), ctx))
+					t.Fatalf("%s", evid.Sig("C12:cli-list-error", "goQuery list failed although the same listing through the library succeeded: %v %s\n  %s", cerr, firstLine(stderr.String()), cctx))
 				}
 				var ms []meta
-				if err := json.Unmarshal(stdout.Bytes(), &ms); err != nil || len(ms) != 1 {
-					t.Fatalf("%s", evid.Sig("C12:cli-list-output", "goQuery list -e json printed %q (%v), want one interface record\n  %s", firstLine(stdout.String()), err, ctx))
+				if err := json.Unmarshal(stdout.Bytes(), &ms); err != nil {
+					t.Fatalf("%s", evid.Sig("C12:cli-list-output", "goQuery list -e json printed %q (%v)\n  %s", firstLine(stdout.String()), err, cctx))
 				}
-				m := ms[0]
-				got2 := summary{V4: m.Traffic.V4, V6: m.Traffic.V6, Drops: m.Traffic.Drops, C: model.Counters{BR: m.Counts.BR, BS: m.Counts.BS, PR: m.Counts.PR, PS: m.Counts.PS}}
-				if got2 != want {
-					t.Fatalf("%s", evid.Sig("C12:cli-summary", "goQuery list reports %+v, blocks in range sum to %+v\n  %s", got2, want, ctx))
+				listed := map[string]int{}
+				for _, m := range ms {
+					listed[m.Iface]++
+					got2 := summary{V4: m.Traffic.V4, V6: m.Traffic.V6, Drops: m.Traffic.Drops, C: model.Counters{BR: m.Counts.BR, BS: m.Counts.BS, PR: m.Counts.PR, PS: m.Counts.PS}}
+					if !expect[m.Iface] {
+						t.Fatalf("%s", evid.Sig("C12:cli-interfaces", "goQuery list reports interface %q, which was not requested (or does not exist)\n  %s", m.Iface, cctx))
+					}
+					if w := sumOf(m.Iface); got2 != w {
+						t.Fatalf("%s", evid.Sig("C12:cli-summary", "goQuery list reports %+v for %s, blocks in range sum to %+v\n  %s", got2, m.Iface, w, cctx))
+					}
+				}
+				for n := range expect {
+					if listed[n] != 1 {
+						t.Fatalf("%s", evid.Sig("C12:cli-interfaces", "goQuery list reports interface %s %d times, want once (listed: %v)\n  %s", n, listed[n], listed, cctx))
+					}
 				}
 			}
 			// differential: totals of an unconditioned query over the same interface and range
